@@ -35,6 +35,7 @@ type Ext struct {
 	funcSym map[*ssa.Function]*Symbol
 	bltSym  map[string]*Symbol
 	paramRootStored map[*Symbol]bool
+	objAlias map[*Symbol]*Term
 }
 
 func NewExt(p *Prog, s *Store, cfg Config) *Ext {
@@ -43,7 +44,7 @@ func NewExt(p *Prog, s *Store, cfg Config) *Ext {
 	}
 	return &Ext{S: s, P: p, Cfg: cfg, cfgs: map[*ssa.Function]*funcCFG{}, cellCur: map[*Symbol]*Term{},
 		objOf: map[ssa.Value]*Symbol{}, globSym: map[*ssa.Global]*Symbol{}, funcSym: map[*ssa.Function]*Symbol{},
-		bltSym: map[string]*Symbol{}, paramRootStored: map[*Symbol]bool{}}
+		bltSym: map[string]*Symbol{}, paramRootStored: map[*Symbol]bool{}, objAlias: map[*Symbol]*Term{}}
 }
 
 func (x *Ext) und(format string, a ...interface{}) {
